@@ -61,6 +61,17 @@ Theorem c02_ticket_reads_only_valid : forall mac session unseal store cfg cs now
 Proof. exact manager_load_reads_only_valid. Qed.
 Print Assumptions c02_ticket_reads_only_valid.
 
+(* ... and a save (login completion, refresh) writes under a ticket the request merely presented
+   only if that cookie validates; otherwise under the freshly generated one *)
+Theorem c02_save_adopts_only_valid_ticket : forall mac cfg host cs now fresh created ok,
+  fst (manager_save mac cfg host cs now fresh created ok) = fst fresh \/
+  exists v raw t sec,
+    find_cookie (c_name cfg) cs = Some v /\
+    validate mac (c_name cfg) v now (c_expire_ns cfg) = Some (raw, t) /\
+    decode_ticket raw = Some (fst (manager_save mac cfg host cs now fresh created ok), sec).
+Proof. exact manager_save_key_fresh_or_valid. Qed.
+Print Assumptions c02_save_adopts_only_valid_ticket.
+
 Theorem c02_ticket_session_from_store : forall mac session unseal store cfg cs now s,
   snd (manager_load mac session unseal store cfg cs now) = Some s ->
   exists id ct sec, fst (manager_load mac session unseal store cfg cs now) = Some id /\
